@@ -117,18 +117,46 @@ Theorem cel_iter_gen_no_size_dependence {S} (conv : S -> bool) (step : S -> S) f
   = unmasked_loop conv step fuel ss.
 Proof. exact (cel_iter_no_size_dependence conv step cel_iter_threshold fuel ss). Qed.
 
-(* ---- CylinderSegment: with the translated placement of the all-on-surface exit, J and M of an
+(* ---- CylinderSegment: J and M are row-wise exactly when the translated flags say so; with the
+   exit before the branch and the branch keeping the polarization on the surface, J and M of an
    on-surface row depend on whether another row of the batch is off the surface *)
+Definition jm_rowwise_flag (exit_before zero_surf : bool) : bool := negb exit_before || zero_surf.
+
+Lemma flag_true eb zs : jm_rowwise_flag eb zs = true -> eb = false \/ zs = true.
+Proof. destruct eb, zs; cbn; auto. Qed.
+
+Theorem cylseg_JM_gen_rowwise {W} (wzero : W) wadd mul_mu0 div_mu0 f (rows : list csrow) :
+  div_mu0 wzero = wzero ->
+  (f = FJ /\ jm_rowwise_flag cylseg_exit_before_J cylseg_J_zero_on_surface = true) \/
+  (f = FM /\ jm_rowwise_flag cylseg_exit_before_M cylseg_M_zero_on_surface = true) ->
+  let cs := cylseg wzero wadd mul_mu0 div_mu0 cylseg_exit_before_J cylseg_exit_before_M
+                   cylseg_J_zero_on_surface cylseg_M_zero_on_surface in
+  cs f rows = flat_map (fun r => cs f [r]) rows.
+Proof.
+  intros Hd H. cbv zeta. apply cylseg_JM_rowwise_if; [exact Hd|].
+  destruct H as [[-> H] | [-> H]]; [left|right]; (split; [reflexivity|apply flag_true, H]).
+Qed.
+
 Open Scope Z_scope.
-Definition zcyl := cylseg (W := Z) 0 Z.add (fun w => 2 * w) (fun w => w / 2)
-                          cylseg_exit_before_J cylseg_exit_before_M.
+Definition zcyl (e1 e2 z1 z2 : bool) := cylseg (W := Z) 0 Z.add (fun w => 2 * w) (fun w => w / 2) e1 e2 z1 z2.
 Definition surf_row := mkCS (W := Z) false true 6 0.     (* on the surface, counted inside, J = 6 *)
 Definition far_row := mkCS (W := Z) true false 6 1.
 
-Theorem cylseg_J_rowwise_refuted :
-  zcyl FJ [surf_row; far_row] <> flat_map (fun r => zcyl FJ [r]) [surf_row; far_row].
-Proof. vm_compute. discriminate. Qed.
+Theorem cylseg_J_refuted_if e1 e2 z1 z2 : jm_rowwise_flag e1 z1 = false ->
+  zcyl e1 e2 z1 z2 FJ [surf_row; far_row] <> flat_map (fun r => zcyl e1 e2 z1 z2 FJ [r]) [surf_row; far_row].
+Proof. destruct e1, z1; cbn; intros H; try discriminate H. destruct e2, z2; vm_compute; discriminate. Qed.
 
-Theorem cylseg_M_rowwise_refuted :
-  zcyl FM [surf_row; far_row] <> flat_map (fun r => zcyl FM [r]) [surf_row; far_row].
-Proof. vm_compute. discriminate. Qed.
+Theorem cylseg_M_refuted_if e1 e2 z1 z2 : jm_rowwise_flag e2 z2 = false ->
+  zcyl e1 e2 z1 z2 FM [surf_row; far_row] <> flat_map (fun r => zcyl e1 e2 z1 z2 FM [r]) [surf_row; far_row].
+Proof. destruct e2, z2; cbn; intros H; try discriminate H. destruct e1, z1; vm_compute; discriminate. Qed.
+
+(* as translated on this run *)
+Definition zcyl_gen := zcyl cylseg_exit_before_J cylseg_exit_before_M cylseg_J_zero_on_surface cylseg_M_zero_on_surface.
+Theorem cylseg_J_gen_refuted :
+  jm_rowwise_flag cylseg_exit_before_J cylseg_J_zero_on_surface = false ->
+  zcyl_gen FJ [surf_row; far_row] <> flat_map (fun r => zcyl_gen FJ [r]) [surf_row; far_row].
+Proof. apply cylseg_J_refuted_if. Qed.
+Theorem cylseg_M_gen_refuted :
+  jm_rowwise_flag cylseg_exit_before_M cylseg_M_zero_on_surface = false ->
+  zcyl_gen FM [surf_row; far_row] <> flat_map (fun r => zcyl_gen FM [r]) [surf_row; far_row].
+Proof. apply cylseg_M_refuted_if. Qed.
